@@ -805,7 +805,8 @@ _EXCS_EXTRA = {}
 
 def _install_extra_exc(I):
     if 'Deadlock' not in M._EXC:
-        M._EXC['Deadlock'] = ExcClass('Deadlock', [ExcClass('BaseException', [])])
+        M._EXC['Deadlock'] = ExcClass('Deadlock', [M.exc_class(I, 'BaseException')])
+        M._EXC['StopLoop'] = ExcClass('StopLoop', [M.exc_class(I, 'BaseException')])
 
 
 # ------------------------------------------------------------------ external modules
@@ -916,7 +917,8 @@ EXTERNALS['time.sleep'] = _fn('time.sleep', _sleep)
 
 
 def _time(I, a, k):
-    t = I.fresh_float('time.time')
+    script = getattr(I, 'time_script', None)     # c.virtual_time(clock=[...]): clock readings are contract inputs
+    t = script.pop(0) if script else I.fresh_float('time.time')
     last = getattr(I, '_last_time', None)
     if last is not None:
         I.path.assume(I.spec_bool(compare(I, '>=', t, last)))
@@ -957,6 +959,23 @@ def _copy(I, a, k):
 
 
 EXTERNALS['copy.copy'] = _fn('copy.copy', _copy)
+
+
+def _reduce(I, a, k):
+    """functools.reduce(function, iterable[, initial]) over a concrete-length iterable (C14)"""
+    items = I.iterate_all(a[1])
+    if len(a) > 2:
+        acc = a[2]
+    else:
+        if not items:
+            I.raise_py('TypeError', 'reduce() of empty iterable with no initial value')
+        acc, items = items[0], items[1:]
+    for x in items:
+        acc = I.call(a[0], [acc, x], {})
+    return acc
+
+
+EXTERNALS['functools.reduce'] = _fn('functools.reduce', _reduce)
 
 
 def crc32_fn():
